@@ -494,3 +494,97 @@ theorem loopWith_spec {db : DB} {vf : Nat} : ∀ (fuel : Nat) (s : St), Inv db s
       exact ih _ hi hend
 
 end Pxv.Dep
+
+namespace Pxv.Dep
+
+theorem visitAll_nodes_mono (db : DB) : ∀ (fuel : Nat) (s : St) (x : Nat), x ∈ s.nodes → x ∈ (visitAll db fuel s).nodes := by
+  intro fuel
+  induction fuel with
+  | zero => intro s x hx; exact hx
+  | succ f ih =>
+    intro s x hx
+    unfold visitAll
+    split
+    · exact hx
+    · rename_i it _
+      apply ih
+      exact ((visit_spec db { s with work := s.work.dropLast } it).1 x).2 (Or.inl hx)
+
+theorem visitAll_last (db : DB) (fuel : Nat) (s : St) (it : Item) (hl : s.work.getLast? = some it) :
+    it.1 ∈ (visitAll db (fuel + 1) s).nodes := by
+  unfold visitAll
+  simp only [hl]
+  apply visitAll_nodes_mono
+  exact ((visit_spec db { s with work := s.work.dropLast } it).1 it.1).2 (Or.inr rfl)
+
+theorem round_nodes_mono (db : DB) (vf : Nat) (s : St) (x : Nat) (hx : x ∈ (visitAll db vf s).nodes) :
+    x ∈ (round db vf s).1.nodes := by
+  unfold round
+  simp only []
+  unfold handleErrors addTransformers
+  -- the second phase leaves the nodes alone, the third only appends
+  have h2 : ∀ (l : List Nat) (s0 : St), x ∈ s0.nodes → x ∈ (l.foldl (heStep db) s0).nodes := by
+    intro l
+    induction l with
+    | nil => intro s0 h; exact h
+    | cons a as ih =>
+      intro s0 h
+      simp only [List.foldl_cons]
+      apply ih
+      unfold heStep
+      split
+      · exact h
+      · split
+        · split <;> exact h
+        · exact h
+  have h3 : ∀ (l : List Nat) (s0 : St), x ∈ s0.nodes → x ∈ (l.foldl (atStep db) s0).nodes := by
+    intro l
+    induction l with
+    | nil => intro s0 h; exact h
+    | cons a as ih =>
+      intro s0 h
+      simp only [List.foldl_cons]
+      apply ih
+      unfold atStep
+      split
+      · exact h
+      · split
+        · obtain ⟨_, _, _, _, ⟨ex, h5⟩, _⟩ := trFold_spec a (db.trOf a) s0
+          simp only [] at h5 ⊢
+          rw [h5]
+          exact List.mem_append.2 (Or.inl h)
+        · exact h
+  exact h3 _ _ (h2 _ _ hx)
+
+theorem loopWith_nodes_mono (db : DB) (vf : Nat) : ∀ (fuel : Nat) (s : St) (x : Nat), x ∈ s.nodes →
+    x ∈ (loopWith (round db vf) fuel s).1.nodes := by
+  intro fuel
+  induction fuel with
+  | zero => intro s x hx; exact hx
+  | succ f ih =>
+    intro s x hx
+    unfold loopWith
+    simp only []
+    have := round_nodes_mono db vf s x (visitAll_nodes_mono db vf s x hx)
+    split
+    · exact this
+    · exact ih _ x this
+
+/-- the root is a node of the graph whenever the loop ends by itself -/
+theorem build_root (db : DB) (fuel root : Nat) (observers : List Nat) (h : (build db fuel root observers).2 = true) :
+    root ∈ (build db fuel root observers).1.nodes := by
+  unfold build at h ⊢
+  cases fuel with
+  | zero => simp [loopWith] at h
+  | succ f =>
+    unfold loopWith
+    simp only []
+    have hl : ({ work := observers.map (fun o => (o, none)) ++ [(root, none)] } : St).work.getLast? = some (root, none) := by
+      simp
+    have h1 := visitAll_last db f _ _ hl
+    have h2 := round_nodes_mono db (f + 1) _ root h1
+    split
+    · exact h2
+    · exact loopWith_nodes_mono db (f + 1) f _ root h2
+
+end Pxv.Dep
